@@ -4,10 +4,11 @@
 -/
 import Model.Driver
 import Model.Lines
+import Model.HelpersDriver
 
 namespace Model
 
-def handlers : List (String → Req → Option String) := [handleCore, Lines.handle]
+def handlers : List (String → Req → Option String) := [handleCore, Lines.handle, Helpers.handle]
 
 def handle (line : String) : String :=
   let (cmd, r) := parseReq line
